@@ -93,12 +93,15 @@ def v6_tail_text(rng, v):
     return ":".join("%x" % x for x in head) + ":" + tail
 
 
-NEAR_KINDS = ["three", "five", "oct256", "oct999", "gluedL", "gluedR", "traildot", "mac", "time", "ver",
+NEAR_KINDS = ["scopedjunk", "three", "five", "oct256", "oct999", "gluedL", "gluedR", "traildot", "mac", "time", "ver",
               "nine6", "trailcolon", "hexword", "leaddot", "g5hex", "bigoct"]
 
 
 def near_text(rng, kind):
     r = lambda: rng.randint(0, 255)
+    if kind == "scopedjunk":
+        # matched by the permissive scoped link-local alternative of the pattern, rejected by ipaddress
+        return rng.choice(["fe80:%x", "fe80::1::2%eth0", "fe80:::1%e0", "fe80:%1", "fe80:1:2:3:4:5%en0"])
     if kind == "three":
         return "%d.%d.%d" % (r(), r(), r())
     if kind == "five":
